@@ -22,7 +22,9 @@ def runner_tasks(tier):
     return [{"module": "c07", "task": "eval_tables", "kind": "eval", "clause": "all rows and fields, absent atoms, fallbacks"},
             {"module": "c07", "task": "energy_tables", "kind": "eval", "clause": "all nodes of the energy-dependent tables"},
             {"module": "stateful", "task": "C07", "name": "stateful", "kind": "bounded", "clause": "re-used wavelength buffers; caller's array untouched"},
-            {"module": "c09", "task": "steps", "name": "first-touch steps", "kind": "eval", "arg": {"groups": ["neutron"]}, "clause": "every first touch of the neutron data serves the rows of the table", "timeout": 1500}]
+            {"module": "c09", "task": "steps", "name": "first-touch steps", "kind": "eval", "arg": {"groups": ["neutron"]}, "clause": "every first touch of the neutron data serves the rows of the table", "timeout": 1500},
+            {"module": "c10", "task": "steps", "name": "private-table steps", "kind": "eval", "arg": {"modules": ["nsf"], "clauses": ["t"]},
+             "clause": "nsf.init on a private table (before or after the public data were first used, again, after edits): the private table serves the rows of the table", "timeout": 1500}]
 
 
 REPLAY = {"module": "c07", "task": "replay"}
